@@ -99,6 +99,17 @@ CLAIMED = {
         "gcc/g++/gfortran 12 as the meaning of the languages; values within int range; division by zero excluded.",
         "DESIGN.md section 3 C11",
     ),
+    "C06": (
+        "explicit-state breadth-first search over a reference ownership model (handle slots, pending string/array/vector contexts); every model transition executed on the generated capsule API against an instrumented allocator and object registry; same histories under AddressSanitizer",
+        "A library with a wrapped class (constructor, destructor, method), functions returning caller-owned, library-owned and by-value instances, std::string results by value / reference / "
+        "owned and borrowed pointer, owned and borrowed arrays, a vector out-argument and string in-arguments is wrapped by the real shroud. The model's state is who owns what; the search "
+        "visits every reachable model state to depth 4 (thorough 5) and executes every enabled (state, operation) transition on the generated C API (the entry points Fortran calls) in a "
+        "fresh process: construct, call, copy handle, explicit destructor, release through the capsule destructor, release again, result fetch and copy-and-free. After every step the "
+        "library's registry of live objects, double-destruction and library-object-destruction events, operator new/delete and malloc/free balances and the capsule fields must equal the "
+        "model; all histories to depth 3 also run without state merging and everything runs again under AddressSanitizer + LeakSanitizer.",
+        "Operations through a handle whose object was released through an alias are caller errors and are not generated. gcc 12; the C API and the Fortran module are the driven seams.",
+        "DESIGN.md section 3 C06",
+    ),
     "C05": (
         "exhaustive enumeration of (library, language, wrapper subset, F_CFI, formatting, line length) configurations; compilers and linker as oracle; failing libraries bisected to single functions",
         "(a) each of the 50 upstream corpus configurations is generated; the 33 that have a wrapped library under regression/run are compiled and linked with it and upstream's own "
